@@ -97,3 +97,23 @@ Proof.
 Qed.
 Example reversed_somewhere : slice_list [10;20;30] (-1) (-4) (-1) = [30;20;10].
 Proof. reflexivity. Qed.
+
+(* NEGATIVE POSITIONS COUNT FROM THE END, for every step: position a - length (with 0 <= a < length) is position a, as a start and as an end *)
+Lemma clamp_negative len a step : 0 <= a < len -> clamp len (a - len) step = clamp len a step.
+Proof.
+  intros H. unfold clamp.
+  destruct (a - len <? 0) eqn:E1; [|apply Z.ltb_ge in E1; lia].
+  destruct (a - len + len <? 0) eqn:E2; [apply Z.ltb_lt in E2; lia|].
+  destruct (a <? 0) eqn:E3; [apply Z.ltb_lt in E3; lia|].
+  destruct (a >=? len) eqn:E4; [apply Z.geb_le in E4; lia|]. lia.
+Qed.
+Theorem negative_start_counts_from_end {A} (l:list A) (a b step : Z) : 0 <= a < Z.of_nat (length l) ->
+  slice_list l (a - Z.of_nat (length l)) b step = slice_list l a b step.
+Proof. intros H. unfold slice_list. rewrite clamp_negative by exact H. reflexivity. Qed.
+Theorem negative_end_counts_from_end {A} (l:list A) (a b step : Z) : 0 <= b < Z.of_nat (length l) ->
+  slice_list l a (b - Z.of_nat (length l)) step = slice_list l a b step.
+Proof. intros H. unfold slice_list. rewrite (clamp_negative _ b) by exact H. reflexivity. Qed.
+(* cutting anywhere and concatenating the two parts gives the sequence back *)
+Theorem cut_and_concatenate {A} (l:list A) (k : Z) : 0 <= k <= Z.of_nat (length l) ->
+  slice_list l 0 k 1 ++ slice_list l k (Z.of_nat (length l)) 1 = l.
+Proof. intros H. rewrite slices_tile by lia. apply full_slice_is_identity. Qed.
